@@ -122,33 +122,6 @@ theorem C16_layout (s : Status) (hw : s.WF) :
 
 /-! ### the setters -/
 
-/-- `set` hands exactly one message to Send, whatever the mode and whatever the kernel answers:
-type AUDIT_SET, flags REQUEST|ACK, the status in wire format -/
-theorem set_sent (s : St) (st : Status) (mode : Nat) :
-    (set s st mode).1.sent = s.sent ++ [⟨AuditSet, NLM_F_REQUEST + NLM_F_ACK, (s.seq + 1) % 4294967296, st.toWire⟩] := by
-  unfold set
-  have hs : (send s AuditSet (NLM_F_REQUEST + NLM_F_ACK) st.toWire).1.sent =
-      s.sent ++ [⟨AuditSet, NLM_F_REQUEST + NLM_F_ACK, (s.seq + 1) % 4294967296, st.toWire⟩] := rfl
-  cases hsend : send s AuditSet (NLM_F_REQUEST + NLM_F_ACK) st.toWire with
-  | mk s1 x =>
-    cases x with
-    | mk q ok =>
-      rw [hsend] at hs
-      simp only at hs
-      cases ok with
-      | false => exact hs
-      | true =>
-        simp only
-        split
-        · exact hs
-        · have hf := getReply_frame q s1
-          cases hg : getReply q s1 with
-          | mk s2 r =>
-            rw [hg] at hf
-            cases r with
-            | error e => exact hf.sent.trans hs
-            | ok ack => simp only; cases checkAck ack <;> exact hf.sent.trans hs
-
 /-- what one setter must put on the wire: one new message of type AUDIT_SET with flags
 NLM_F_REQUEST|NLM_F_ACK whose payload is a full audit_status with `mask` and the field `name`
 set to `val`, every other field 0 -/
